@@ -109,7 +109,10 @@ func VerifC18_Tamper() {
 	priv, id := c18key()
 	data, err := MakeIngestRequest(id, priv, verif_Bytes("multihash", 1), nil, nil, nil)
 	verif_Assert(err == nil, "sealing succeeds")
-	pos := verif_Choose("alteredByte", 0, len(data)-1)
+	// (counted from the end: the signature is the last field of a sealed envelope,
+	// in the real encoding and in the engine's model of it alike, so a position
+	// means the same part of the envelope in the symbolic run and in its native replay)
+	pos := len(data) - 1 - verif_Choose("alteredByteFromEnd", 0, len(data)-1)
 	t := append([]byte{}, data...)
 	t[pos] ^= verif_U8("xor")
 	verif_Assume(!bytes.Equal(t, data))
